@@ -28,6 +28,8 @@ class Mesh:
         # List of all added operations/shapes
         self.depot: List[AdditiveType] = []
         self.deleted: Set[Operation] = set()
+        # operations the blocks were created from, in the order of blocks
+        self.assembled: List[Operation] = []
 
         self.vertex_list = VertexList()
         self.edge_list = EdgeList()
@@ -126,6 +128,7 @@ class Mesh:
                 block.cell_zone = operation.cell_zone
 
                 self.block_list.add(block)
+                self.assembled.append(operation)
                 self.patch_list.add(vertices, operation)
                 self.face_list.add(vertices, operation)
 
@@ -146,6 +149,7 @@ class Mesh:
         self.vertex_list.clear()
         self.edge_list.clear()
         self.block_list.clear()
+        self.assembled.clear()
         self.patch_list.clear()
         self.face_list.clear()
 
@@ -160,7 +164,8 @@ class Mesh:
         if not self.is_assembled:
             raise RuntimeError("Cannot backport non-assembled mesh")
 
-        operations = self.operations
+        # blocks are created from non-deleted operations only
+        operations = self.assembled
         blocks = self.blocks
 
         for i, block in enumerate(blocks):
